@@ -65,6 +65,28 @@ Theorem c02_crc_single_bit_v2 : forall dec unzip hd frame p0 i s p1,
 Proof. exact crc_flip_v2. Qed.
 Print Assumptions c02_crc_single_bit_v2.
 
+(* a flip INSIDE the length field (also checksum-covered): full statement
+     "forall i < 16 (24), the damaged frame decodes to an error"
+   holds unless a strictly shorter frame cut out of the same bytes has the CRC-32 of the
+   original - a collision between two different byte strings that no theorem can exclude.
+   Proved: error, or exactly that collision (the harness flips these bits exhaustively on
+   every generated frame and demands an error). *)
+Theorem c02_len_flip_partial_v1 : forall dec unzip hd frame p0 i s p1,
+  wf_bytes frame -> accepted (read_packet_v1 dec unzip hd [frame] p0) ->
+  i < 16 -> concat s = flip_bit i frame ->
+  is_err (r_out (read_packet_v1 dec unzip hd s p1))
+  \/ exists h' b', r_out (read_head_body_v1 s) = Ok (h', b') /\ crc_collision 10 14 frame h' b'.
+Proof. exact len_flip_partial_v1. Qed.
+Print Assumptions c02_len_flip_partial_v1.
+
+Theorem c02_len_flip_partial_v2 : forall dec unzip hd frame p0 i s p1,
+  wf_bytes frame -> accepted (read_packet_v2 dec unzip hd [frame] p0) ->
+  i < 24 -> concat s = flip_bit i frame ->
+  is_err (r_out (read_packet_v2 dec unzip hd s p1))
+  \/ exists h' b', r_out (read_head_body_v2 s) = Ok (h', b') /\ crc_collision 16 20 frame h' b'.
+Proof. exact len_flip_partial_v2. Qed.
+Print Assumptions c02_len_flip_partial_v2.
+
 (* "truncated at any offset": every proper prefix of an accepted frame ends in io.EOF or
    io.ErrUnexpectedEOF, however it is chunked *)
 Theorem c02_truncation_v1 : forall dec unzip hd frame p0,
